@@ -19,7 +19,7 @@ Proof.
   destruct (negb (beneath work _)); [split; reflexivity|].
   destruct (mkdir_all _ _ _) as [t1 [|]]; [|split; reflexivity].
   destruct (if u then _ else _) as [t2|]; [|split; reflexivity].
-  destruct (IH (set_fs (set_files st (assoc_set (s_files st) (mkabs st (expand (s_env st) n)) n)) t2)) as [H1 H2].
+  destruct (IH (set_fs (set_files st (assoc_set (s_files st) (clean (mkabs st (expand (s_env st) n))) n)) t2)) as [H1 H2].
   rewrite H1, H2. split; reflexivity.
 Qed.
 
@@ -64,10 +64,12 @@ Proof.
   split; [exact Hs|]. apply (setup_failure_is_fail_0 _ _ _ _ _ Hs).
 Qed.
 
-(* ---- scriptFiles after setup: every key is the location of its entry, inside the work
-   directory, and every value is the name of an entry exactly as the archive spells it *)
+(* ---- scriptFiles after setup: every key is the location of its entry, cleaned (filepath.Clean),
+   that location is inside the work directory, and every value is the name of an entry exactly as
+   the archive spells it *)
 Definition files_ok (work : bytes) (env : list (bytes * bytes)) (names : list bytes) (F : list (bytes * bytes)) : Prop :=
-  forall p e, assoc_get F p = Some e -> In e names /\ p = location work env e /\ beneath work p = true.
+  forall p e, assoc_get F p = Some e ->
+    In e names /\ p = clean (location work env e) /\ beneath work (location work env e) = true.
 
 Lemma unpack_files_ok u work names : forall fs st,
   s_cd st = work -> incl (map fst fs) names ->
@@ -77,15 +79,15 @@ Proof.
   induction fs as [|[n d] r IH]; intros st Hcd Hin Hok; cbn [unpack]; [exact Hok|].
   destruct (beneath work (mkabs st (expand (s_env st) n))) eqn:Hb; cbn [negb]; [|exact Hok].
   set (p := mkabs st (expand (s_env st) n)) in *.
-  assert (files_ok work (s_env st) names (assoc_set (s_files st) p n)) as Hok'.
-  { intros q e Hq. destruct (bytes_eqb q p) eqn:E.
+  assert (files_ok work (s_env st) names (assoc_set (s_files st) (clean p) n)) as Hok'.
+  { intros q e Hq. destruct (bytes_eqb q (clean p)) eqn:E.
     - apply bytes_eqb_eq in E. subst q. rewrite assoc_get_set in Hq. inversion Hq; subst e.
-      split; [apply Hin; left; reflexivity|]. split; [|exact Hb].
-      unfold p. rewrite mkabs_location, Hcd. reflexivity.
+      split; [apply Hin; left; reflexivity|].
+      unfold p in Hb |- *. rewrite mkabs_location, Hcd in Hb |- *. split; [reflexivity|exact Hb].
     - rewrite (assoc_get_set_other _ _ _ _ E) in Hq. exact (Hok q e Hq). }
   destruct (mkdir_all _ _ _) as [t1 [|]]; [|exact Hok'].
   destruct (if u then _ else _) as [t2|]; [|exact Hok'].
-  apply (IH (set_fs (set_files st (assoc_set (s_files st) p n)) t2)).
+  apply (IH (set_fs (set_files st (assoc_set (s_files st) (clean p) n)) t2)).
   - exact Hcd.
   - intros x Hx. apply Hin. right. exact Hx.
   - exact Hok'.
@@ -149,10 +151,10 @@ Proof.
   destruct neg; [destruct (bytes_eqb _ _); exact H|].
   destruct (bytes_eqb _ _); [exact H|].
   destruct (upd && negb envs); [|exact H].
-  destruct (assoc_get (s_files st) (mkabs st n2)) as [entry|] eqn:E; [|exact H].
+  destruct (assoc_get (s_files st) (clean (mkabs st n2))) as [entry|] eqn:E; [|exact H].
   cbn [outcome_state s_updates set_updates].
   intros e c Hq. destruct (bytes_eqb e entry) eqn:Ee.
-  - apply bytes_eqb_eq in Ee. subst e. exists (mkabs st n2). exact E.
+  - apply bytes_eqb_eq in Ee. subst e. exists (clean (mkabs st n2)). exact E.
   - rewrite (assoc_get_set_other _ _ _ _ Ee) in Hq. exact (H e c Hq).
 Qed.
 
@@ -230,7 +232,7 @@ Theorem only_entries_updated cfg work env a e c :
   assoc_get (s_updates (r_final (run_archive cfg work env a))) e = Some c ->
   In e (map fst (files a))
   /\ exists p, assoc_get (s_files (fst (setup cfg work env a))) p = Some e
-               /\ p = location work env e /\ beneath work p = true.
+               /\ p = clean (location work env e) /\ beneath work (location work env e) = true.
 Proof.
   unfold run_archive. intros H.
   pose proof (setup_files_ok cfg work env a) as Hok.
@@ -329,15 +331,17 @@ Example ex_mv_keeps_table :
   r_verdict (f_run r) = Fail 3 /\ f_change r = Untouched.
 Proof. vm_compute. split; reflexivity. Qed.
 
-(* an observation about the code as it stands, which the model copies: the table is keyed by the
-   UNCLEANED absolute path, so an entry addressed as $WORK/./g.txt is not recognised as the entry
-   (the mismatch fails and nothing is written), and neither is an entry NAMED $WORK/./g.txt when
-   it is addressed as g.txt *)
-Example ex_uncleaned_key :
+(* the table is keyed by the CLEANED path (a repaired defect: it used to be keyed by the path as
+   written): an entry addressed as $WORK/./g.txt or $WORK/sub/../g.txt is the entry, and so is an
+   entry NAMED $WORK/./g.txt when it is addressed as g.txt; it is rewritten under its own name *)
+Example ex_cleaned_key :
   let r := run_file_full cfgu (b "/w") env1
-             (script ["exec tshelper echo new"; "cmp stdout $WORK/./g.txt"; "-- g.txt --"; "old"]) in
+             (script ["mkdir sub"; "exec tshelper echo new"; "cmp stdout $WORK/./g.txt"; "cmp stdout $WORK/sub/../g.txt"; "-- g.txt --"; "old"]) in
   let r2 := run_file_full cfgu (b "/w") env1
              (script ["exec tshelper echo new"; "cmp stdout g.txt"; "-- $WORK/./g.txt --"; "old"]) in
-  r_verdict (f_run r) = Fail 2 /\ f_change r = Untouched /\ r_verdict (f_run r2) = Fail 2 /\ f_change r2 = Untouched.
+  r_verdict (f_run r) = Pass
+  /\ f_change r = Rewritten (script ["mkdir sub"; "exec tshelper echo new"; "cmp stdout $WORK/./g.txt"; "cmp stdout $WORK/sub/../g.txt"; "-- g.txt --"; "new"])
+  /\ r_verdict (f_run r2) = Pass
+  /\ f_change r2 = Rewritten (script ["exec tshelper echo new"; "cmp stdout g.txt"; "-- $WORK/./g.txt --"; "new"]).
 Proof. vm_compute. repeat split; reflexivity. Qed.
 End NamesExamples.
